@@ -11,8 +11,8 @@ from simkit.world import kind_of
 
 REAL = ["spydrnet.uniquify", "spydrnet.ir.* (clone, reference re-pointing)", "callback framework",
         "namespace manager plugin"]
-STUB = ["identity hash of IR objects (PRNG chosen)", "GC schedule", "uniquify name counter start value "
-        "(process restart fault)"]
+STUB = ["identity hash of IR objects (PRNG chosen)", "GC schedule", "uniquify name counter start value", "process "
+        "restart with the design surviving on the simulated disk only (F12)", "file system (SimFS)"]
 
 
 def reachable_nonleaf_instances(netlist):
@@ -56,6 +56,11 @@ class C08(Prop):
         cfg["counter_start"] = rng.choice([0, 0, 0, 1, 7])
         cfg["gc_between"] = rng.random() < 0.3
         cfg["uniq_names"] = rng.choice([0.0, 0.0, 0.5, 0.9])
+        cfg["restart"] = rng.random() < 0.3
+        if cfg["restart"]:
+            cfg["acyclic_libs"] = True
+            cfg["orphan_instance"] = False
+            cfg["lsb"] = max(0, cfg["lsb"])
         return cfg
 
     def make_gen(self, w, rng, cfg):
@@ -65,13 +70,59 @@ class C08(Prop):
         if cfg.get("gc_between"):
             tail.append({"op": "gc"})
         tail.append({"op": "uniquify", "on": b.netlist})
-        return ScriptGen(ev + tail)
+        if not cfg.get("restart"):
+            return ScriptGen(ev + tail)
+        # F12: the uniquified design is written out, the process restarts (name counter back to 0, only the
+        # disk survives), the file is read back, new sharing is added and uniquify runs in the new process
+        tail.append({"op": "compose", "on": b.netlist, "path": "sim://u.edf"})
+        tail.append({"op": "restart"})
+        tail.append({"op": "parse", "path": "sim://u.edf", "tag": "after_restart"})
+        state = {"phase": 0, "net": None}
+        n_script = len(ev) + len(tail)
+
+        def more():
+            if state["phase"] == 0:
+                state["phase"] = 1
+                net = w.h("e%d.0" % (n_script - 1))
+                if net is None or net.top_instance is None:
+                    return None
+                state["net"] = w.handle_of(net)
+                top = net.top_instance.reference
+                cands = [d for lib in net.libraries for d in lib.definitions
+                         if d is not top and not d.is_leaf() and len(d.references) >= 1
+                         and not self._reaches(d, top)]
+                if not cands:
+                    return {"op": "uniquify", "on": state["net"]}
+                d = rng.choice(cands)
+                return {"op": "create_child", "on": w.handle_of(top), "name": "added_after_restart",
+                        "ref": w.handle_of(d)}
+            if state["phase"] == 1:
+                state["phase"] = 2
+                return {"op": "uniquify", "on": state["net"]}
+            return None
+        return ScriptGen(ev + tail, more)
+
+    @staticmethod
+    def _reaches(src, dst):
+        seen, stack = set(), [src]
+        while stack:
+            d = stack.pop()
+            if d is dst:
+                return True
+            if d is None or id(d) in seen:
+                continue
+            seen.add(id(d))
+            stack.extend(c.reference for c in d.children)
+        return False
 
     def start(self, w, cfg):
         w.set_counters(uniquify=cfg.get("counter_start", 0))
         self.n_uniq = 0
 
     def before(self, w, ev):
+        if ev["op"] == "restart":
+            self.n_uniq = 0
+            w.count("probe.restart_between_uniquify_runs")
         if ev["op"] != "uniquify":
             return None
         n = w.h(ev["on"])
